@@ -305,11 +305,42 @@ def make_eval(exes):
                     fail = {"shape": case["shape"], "n": case["n"], "scheds": [list(s)], "est": est,
                             "variant": case["variant"], "sched": ss, "what": bad}
                     break
+            if fail is None and len(data) > 0:
+                fail = late_close(argv, data, env0, expect, case, stats)
         return fail
     return ev
 
 
+def late_close(argv, data, env0, expect, case, stats):
+    """Free-running, input through a pipe whose writer delivers everything and closes 250 ms later: end of input then
+    reaches the reader thread while the workers are idle (with a regular file some worker is always still busy).  A
+    lost wake-up shows as a process that never exits; three consecutive 40 s timeouts on these small inputs count."""
+    def once():
+        return core.run_fed(argv, data, [(len(data), 250)], env=dict(env0), timeout=40)
+    r = once()
+    labels = [case["shape"]["kind"], "late-close-pipe", "workers=%d" % case["n"]]
+    if len(data) % 100000 == 0 or case["shape"].get("fam") in ("exact-size", "trunc"):
+        labels.append("input-ends-at-a-chunk-edge")
+    stats.add(core.fp(case["shape"], case["n"], "late-close"), True, labels, None)
+    if r.timeout:
+        if once().timeout and once().timeout:
+            return {"shape": case["shape"], "n": case["n"], "scheds": [], "est": 0, "variant": case["variant"],
+                    "sched": "late-close", "what": "no exit within 40 s in 3 consecutive runs: the input pipe was closed 250 ms "
+                    "after the last byte (lost wake-up at end of input?)"}
+        stats.inconclusive += 1
+        return None
+    bad = judge(r, expect, {"final": True})
+    if bad:
+        return {"shape": case["shape"], "n": case["n"], "scheds": [], "est": 0, "variant": case["variant"],
+                "sched": "late-close", "what": "late-close pipe: " + bad}
+    return None
+
+
 def replay_case(case):
+    if case.get("sched") == "late-close":
+        exes = core.build_many(["rel", "asan"])
+        argv_tail, data, expect, env0 = build_input(exes["rel"], case["shape"])
+        return late_close([exes[case["variant"]]] + argv_tail + ["-n", str(case["n"])], data, env0, expect, case, core.Stats())
     exes = core.build_many(["rel", "asan"])
     exe = exes[case["variant"]]
     argv_tail, data, expect, env0 = build_input(exes["rel"], case["shape"])
